@@ -1,0 +1,72 @@
+//go:build verif
+
+// Contracts for govc (contract-based deductive verification); comments only.
+package scenario
+
+// GetVictims re-resolves every recorded victim task to the session's current PodInfo of the same pod
+// (so that validators such as consolidation.allPodsReallocated see the task's CURRENT status) and
+// returns the scenario's own victims map. Only cells of the victims' Tasks slices are written.
+//@ define pgis(s *BaseScenario) map[common_info.PodGroupID]*podgroup_info.PodGroupInfo = s.session.ClusterInfo.PodGroupInfos
+//@ define sessionJobsOK(s *BaseScenario) bool = s.session != nil && s.session.ClusterInfo != nil && (forall k in pgis(s) :: podgroup_info.allTasksOK(pgis(s)[k]) && podgroup_info.setsOK(pgis(s)[k]))
+// every recorded victim task belongs to a job of the session (else getJobForTask returns nil)
+//@ define tasksKnown(s *BaseScenario, v *api.VictimInfo) bool = forall i int :: 0 <= i && i < len(v.Tasks) ==> v.Tasks[i] != nil && v.Tasks[i].Job in pgis(s)
+// distinct victims own distinct VictimInfo objects whose Tasks slices (each built by append) share no cells
+//@ define victimsSeparate(s *BaseScenario) bool = forall k1 in s.victims :: forall k2 in s.victims :: k1 != k2 ==> s.victims[k1] != s.victims[k2] && disjoint(s.victims[k1].Tasks, s.victims[k2].Tasks)
+
+//@ func (*BaseScenario).getJobForTask
+//@   props C06
+//@   requires s != nil && s.session != nil && s.session.ClusterInfo != nil && task != nil
+//@   inline
+//@ end
+
+//@ func (*BaseScenario).GetVictims
+//@   props C06
+//@   requires s != nil && sessionJobsOK(s) && victimsSeparate(s)
+//@   requires forall k in s.victims :: s.victims[k] != nil && tasksKnown(s, s.victims[k])
+//@   modifies family(s.victims[""].Tasks[*])
+//@   loop 1
+//@     invariant s.victims == old(s.victims)
+//@     invariant forall k common_info.PodGroupID, i int :: k in s.victims && !(k in visited) && 0 <= i && i < len(s.victims[k].Tasks) ==> s.victims[k].Tasks[i] == old(s.victims[k].Tasks[i])
+//@   loop 2
+//@     invariant 0 - 1 <= rangeindex && rangeindex < len(victim.Tasks)
+//@     invariant forall k common_info.PodGroupID, i int :: k in s.victims && s.victims[k] == victim && rangeindex < i && i < len(victim.Tasks) ==> victim.Tasks[i] == old(s.victims[k].Tasks[i])
+//@     invariant exists k in s.victims :: s.victims[k] == victim
+//@     invariant forall k in s.victims :: s.victims[k] != victim ==> disjoint(s.victims[k].Tasks, victim.Tasks)
+//@     invariant forall k common_info.PodGroupID, i int :: k in s.victims && s.victims[k] != victim && !(k in visited) && 0 <= i && i < len(s.victims[k].Tasks) ==> s.victims[k].Tasks[i] == old(s.victims[k].Tasks[i])
+//@     decreases len(victim.Tasks) - rangeindex
+//@   ensures [sameMap] result == s.victims && s.victims == old(s.victims)
+//@ end
+
+// ---- added by helper "solver" -----------------------------------------------------------------------------
+// The scenario skeleton is written by NewBaseScenario / NewByNodeScenario only (constructors); the lists of
+// potential victims grow through AddPotentialVictimsTasks (scenario builder), which the by-pod solver never calls.
+//@ stable ByNodeScenario.BaseScenario
+//@ stable BaseScenario.session
+//@ stable BaseScenario.preemptor
+//@ stable BaseScenario.pendingTasks
+//@ stable BaseScenario.recordedVictimsJobs
+//@ stable BaseScenario.recordedVictimsTasks
+//@ stable BaseScenario.potentialVictimsTasks
+
+// Read-only accessor: collects the tasks of the victim task groups recorded for the given nodes into a new
+// slice. Trusted frame (nothing is written): the body ranges over victimsJobsTaskGroups (a map of slices of
+// cloned jobs) and calls GetAllPodsMap on every clone, whose precondition (no nil pod set) is a property of
+// CloneWithTasks that cannot be carried through the `modifies *` statement operations of the callers.
+//@ func (*ByNodeScenario).VictimsTasksFromNodes
+//@   props C06
+//@   trusted
+//@   note trusted read-only frame: VictimsTasksFromNodes only reads the scenario (maps.Keys / maps.Values / GetAllPodsMap of the victim task groups) and returns a new slice of pod-map values (never nil: podgroup_info.allTasksOK)
+//@   requires bns != nil && bns.BaseScenario != nil
+//@   pure
+//@   ensures [tasksNonNil] forall i int :: 0 <= i && i < len(result) ==> result[i] != nil
+//@ end
+
+// Same for the recorded victims: the cached list built by NewBaseScenario, or the values of the recorded jobs' pod maps.
+//@ func (*BaseScenario).RecordedVictimsTasks
+//@   props C06
+//@   trusted
+//@   note trusted read-only frame: returns the cached slice or collects the values of the recorded victim jobs' pod maps (never nil: podgroup_info.allTasksOK); GetAllPodsMap's precondition on those jobs cannot be carried through the `modifies *` statement operations of the callers
+//@   requires s != nil
+//@   pure
+//@   ensures [tasksNonNil] forall i int :: 0 <= i && i < len(result) ==> result[i] != nil
+//@ end
